@@ -23,6 +23,7 @@ func (x *Exec) check(bc *blockCtx, kind string, in ssa.Instruction, cond *smt.Te
 
 func (x *Exec) execInstr(bc *blockCtx, in ssa.Instruction) ([]*Edge, bool) {
 	fr := bc.fr
+	x.curSt = bc.st
 	set := func(v ssa.Value, val *Val) { bc.env.vals[v] = val }
 	switch i := in.(type) {
 	case *ssa.DebugRef:
@@ -115,6 +116,7 @@ func (x *Exec) execInstr(bc *blockCtx, in ssa.Instruction) ([]*Edge, bool) {
 				x.rangeFacts(t, i.Type(), bc.reach, 1)
 			}
 			x.oldRefFacts(t, i.Type())
+			x.allocFactsDeep(bc, t, i.Type(), 0)
 			if g, ok := i.X.(*ssa.Global); ok {
 				// trusted facts about package-level variables (e.g. io.EOF is non-nil)
 				if gc := x.prog.Contracts.Funcs[normalizeFuncName(g.Pkg.Pkg.Path()+"."+g.Name())]; gc != nil && gc.Kind == "global" {
@@ -397,8 +399,15 @@ func (x *Exec) freshRef(name string) *smt.Term {
 		x.freshSet = map[int]bool{}
 	}
 	x.freshSet[r.ID] = true
-	// fresh references lie above every reference that existed at entry
+	// fresh references lie above every reference that existed at entry, and above
+	// every reference allocated so far on this path (allocation watermark G_alloc)
 	x.axiom(x.b.Cmp(">=", r, x.b.Const("alloc0", "Int")))
+	if x.curSt != nil {
+		x.heapSorts["G_alloc"] = "Int"
+		cur := x.getHeap(x.curSt, "G_alloc")
+		x.axiom(x.b.Cmp(">=", r, cur))
+		x.curSt.heaps["G_alloc"] = x.b.Add(r, x.b.Int(1))
+	}
 	x.axiom(x.b.Cmp(">", r, x.b.Int(0)))
 	for _, p := range x.paramRefs {
 		x.axiom(x.b.Not(x.b.Eq(r, p)))
@@ -966,6 +975,35 @@ func (x *Exec) oldRefFactsDeep(t *smt.Term, typ types.Type, depth int) {
 		return
 	}
 	x.oldRefFacts(t, typ)
+}
+
+// allocFactsDeep: every reference read from memory was allocated earlier, so it
+// lies below the current allocation watermark (and is therefore different from
+// anything allocated later).
+func (x *Exec) allocFactsDeep(bc *blockCtx, t *smt.Term, typ types.Type, depth int) {
+	if depth > 2 || t.Bound {
+		return
+	}
+	if _, ok := x.heapSorts["G_alloc"]; !ok {
+		x.heapSorts["G_alloc"] = "Int"
+	}
+	wm := x.getHeap(bc.st, "G_alloc")
+	switch u := typ.Underlying().(type) {
+	case *types.Pointer, *types.Map, *types.Chan:
+		x.assume(bc.reach, x.b.Cmp("<", t, wm))
+	case *types.Slice:
+		x.assume(bc.reach, x.b.Cmp("<", x.sRef(t), wm))
+	case *types.Struct:
+		if _, isTP := typ.(*types.TypeParam); isTP {
+			return
+		}
+		for i := 0; i < u.NumFields(); i++ {
+			switch u.Field(i).Type().Underlying().(type) {
+			case *types.Pointer, *types.Map, *types.Chan, *types.Slice, *types.Struct:
+				x.allocFactsDeep(bc, x.fieldOf(t, typ, i), u.Field(i).Type(), depth+1)
+			}
+		}
+	}
 }
 
 func isNilSSA(v ssa.Value) bool {
